@@ -126,12 +126,18 @@ func (r *recorder) AfterStep(s *interpreter.State) {
 	r.steps = append(r.steps, snap)
 	r.see(s)
 }
-func (r *recorder) BeforeExecuteOpcode(s *interpreter.State) { r.trace = append(r.trace, 'O'); r.see(s) }
-func (r *recorder) AfterExecuteOpcode(s *interpreter.State)  { r.trace = append(r.trace, 'o'); r.see(s) }
-func (r *recorder) BeforeScriptChange(s *interpreter.State)  { r.trace = append(r.trace, 'C'); r.see(s) }
-func (r *recorder) AfterScriptChange(s *interpreter.State)   { r.trace = append(r.trace, 'c'); r.see(s) }
-func (r *recorder) AfterSuccess(s *interpreter.State)        { r.trace = append(r.trace, 'Y'); r.see(s) }
-func (r *recorder) AfterError(s *interpreter.State, e error) { r.trace = append(r.trace, 'N'); r.see(s) }
+func (r *recorder) BeforeExecuteOpcode(s *interpreter.State) {
+	r.trace = append(r.trace, 'O')
+	r.see(s)
+}
+func (r *recorder) AfterExecuteOpcode(s *interpreter.State) { r.trace = append(r.trace, 'o'); r.see(s) }
+func (r *recorder) BeforeScriptChange(s *interpreter.State) { r.trace = append(r.trace, 'C'); r.see(s) }
+func (r *recorder) AfterScriptChange(s *interpreter.State)  { r.trace = append(r.trace, 'c'); r.see(s) }
+func (r *recorder) AfterSuccess(s *interpreter.State)       { r.trace = append(r.trace, 'Y'); r.see(s) }
+func (r *recorder) AfterError(s *interpreter.State, e error) {
+	r.trace = append(r.trace, 'N')
+	r.see(s)
+}
 func (r *recorder) BeforeStackPush(s *interpreter.State, b []byte) {
 	r.trace = append(r.trace, 'P')
 	r.see(s)
